@@ -54,7 +54,16 @@ type Scenario struct {
 	WriteMS    int           `json:"write_ms"`
 	PortInUse  int           `json:"port_in_use"` // number of client UDP ports that are busy
 	ExtraCalls int           `json:"extra_calls"` // API calls issued after the main script
+	// Yields: yield sites of the client's shutdown / writer paths at which the scheduler may hold
+	// the goroutine (simulated scheduling delay), so that server bytes can arrive in between.
+	Yields map[string]core.YieldSpec `json:"yields,omitempty"`
 }
+
+var clientSites = []string{"c.doClose.pre", "c.doClose.teardown", "c.doClose.reader", "c.doClose.medias", "c.run.close",
+	"c.destroyWriter.pre", "c.destroyWriter.mid", "c.createWriter.pre", "c.startWriter.pre",
+	"ap.close.cancel", "ap.close.ring", "ap.close.join", "ap.start"}
+
+const maxHold = 50 * time.Millisecond
 
 var kinds = []string{"normal", "normal", "normal", "mutate", "mutate", "targeted", "targeted", "targeted", "drop", "dup", "delay", "frames", "request",
 	"close-before", "close-after", "rst", "silent", "status", "cseq", "redirect"}
@@ -90,6 +99,15 @@ func gen(seed uint64, tier string) Scenario {
 	if r.Bool(0.04) {
 		sc.RedirectLoop = true
 		sc.Behaviours = sc.Behaviours[:r.Intn(2)]
+	}
+	// hash-derived so that no other choice of the scenario moves
+	if core.HS(seed, "c12.yields", "", 0)%100 < 50 {
+		sc.Yields = map[string]core.YieldSpec{}
+		for i, st := range clientSites {
+			if core.HS(seed, "c12.yield", st, uint64(i))%100 < 40 {
+				sc.Yields[st] = core.YieldSpec{}
+			}
+		}
 	}
 	nc := simnet.Config{Seed: seed ^ 0x12121212}
 	nc.LatMinUS = r.Pick(10, 100, 1000)
@@ -537,7 +555,7 @@ func targeted(res *base.Response, req *base.Request, arg int, w *sys.World) {
 // ---- the run ------------------------------------------------------------------------
 
 func run(t *testing.T, sc Scenario) *core.Result {
-	opts := sys.Options{Seed: sc.Seed, Net: sc.Net, MaxSteps: 400000, Horizon: 60 * time.Minute}
+	opts := sys.Options{Seed: sc.Seed, Net: sc.Net, Yields: sc.Yields, MaxHold: maxHold, MaxSteps: 400000, Horizon: 60 * time.Minute}
 	var summary map[string]any
 	res := sys.Run(t, opts, func(w *sys.World) {
 		w.ProbeInit("call_returned_error", "call_returned_ok", "reached_play", "reached_record", "client_terminated_itself", "calls_after_failure",
@@ -583,9 +601,10 @@ func run(t *testing.T, sc Scenario) *core.Result {
 		failedOnce := false
 		call := func(name string, f func() error) error {
 			t0 := time.Now()
+			hold0 := w.S.HoldTotal()
 			w.Log.Add("cli", "call", "%s", name)
 			err := f()
-			d := time.Since(t0)
+			d := time.Since(t0) - (w.S.HoldTotal() - hold0) // holds at yield sites are the simulator's own delay
 			w.Log.Add("cli", "return", "%s %v", name, err != nil)
 			if d > bound {
 				w.Fail("c12/api-call latency", "%s returned after %v of simulated time (bound %v = 16 x (ReadTimeout+WriteTimeout) + budget); error: %v", name, d, bound, err)
@@ -697,8 +716,9 @@ func run(t *testing.T, sc Scenario) *core.Result {
 				go func() { <-died }()
 			}
 			t0 := time.Now()
+			hold0 := w.S.HoldTotal()
 			c.Close()
-			if d := time.Since(t0); d > bound {
+			if d := time.Since(t0) - (w.S.HoldTotal() - hold0); d > bound {
 				w.Fail("c12/close latency", "Client.Close took %v of simulated time (bound %v)", d, bound)
 			}
 			// a second Wait must return at once
@@ -745,7 +765,23 @@ func shrink(sc Scenario) []Scenario {
 	clone := func() Scenario {
 		c := sc
 		c.Behaviours = append([]Behaviour(nil), sc.Behaviours...)
+		if sc.Yields != nil {
+			c.Yields = map[string]core.YieldSpec{}
+			for k, v := range sc.Yields {
+				c.Yields[k] = v
+			}
+		}
 		return c
+	}
+	if len(sc.Yields) > 0 {
+		c := clone()
+		c.Yields = nil
+		out = append(out, c)
+		for k := range sc.Yields {
+			c := clone()
+			delete(c.Yields, k)
+			out = append(out, c)
+		}
 	}
 	for i, b := range sc.Behaviours {
 		if b.Kind != "normal" {
